@@ -217,7 +217,7 @@ class Trace:
                          admissions_had_room=not any(
                              v['prop'] == 'C07' and v['clause'].startswith('admitted_without')
                              for v in self.viol),
-                         ingests_overlapped=getattr(self, 'max_ingesting', 0) >= 2,
+                         ingests_overlapped=self._ingests_overlapped(),
                          deposits_as_specified=not any(
                              v['prop'] == 'C07' and v['clause'] in ('deposit_amount',
                                                                     'too_many_deposits',
@@ -260,6 +260,13 @@ class Trace:
         cnt['c08_evals'] += 1
         # ---- C19: truthful queries
         self._c19(p, sh, sc)
+
+    def _ingests_overlapped(self):
+        """Did two admitted observations observe at the same time (admission intervals
+        [begin, begin + duration) from the trace and the generated durations)?"""
+        iv = sorted((o['begin']['t'], o['begin']['t'] + self.spec['obs'][n]['duration'])
+                    for n, o in self.obs.items() if o['begin'] is not None)
+        return any(b[0] < a[1] for a, b in zip(iv, iv[1:]))
 
     def _c19(self, p, sh, sc):
         sim = self.sim
